@@ -87,6 +87,31 @@ fn data_truncated(c: usize) {
     std::mem::forget(r);
 }
 
+/// A header that arrives with `n` descriptors attached, n around the library's limit of 32 per message:
+/// whatever recv_header returns, once its result is dropped every descriptor the kernel installed in this
+/// process has been closed (none is lost because the receive buffer was larger than what gets wrapped).
+fn hdr_many_fds(n: usize) {
+    let mut e = ep();
+    // SAFETY: ghost state
+    unsafe {
+        g::put_hdr(0, 8, 1, 8);
+        g::G.rx_len = 12;
+        g::G.rx_closed = true;
+        g::G.rx_big = n;
+    }
+    let r = e.recv_header();
+    kani::cover!(r.is_ok() || r.is_err());
+    if let Ok((_, files)) = &r {
+        assert!(files.as_ref().map_or(0, |f| f.len()) == n, "C09: every received descriptor is handed on");
+    }
+    drop(r);
+    // SAFETY: ghost state
+    unsafe {
+        assert!(g::G.big_closed == g::G.big_open, "C09: a descriptor installed by recvmsg was neither handed on nor closed (leak)");
+        assert!(!g::G.blocked);
+    }
+}
+
 // The cut positions / accept sizes below are concrete per harness: with symbolic cuts the resume offsets
 // inside recv_into_iovec_all/send_iovec_all become symbolic and CBMC can no longer bound those loops
 // (measured: 1.6M steps and out of memory for a 12-byte header).  Values: see each instantiation.
@@ -266,15 +291,15 @@ c08!(c08_u_hdr_truncated_1, 6, hdr_truncated(1));
 c08!(c08_u_hdr_truncated_11, 6, hdr_truncated(11));
 // @harness props=C08 tier=thorough reach=off bound="recv_header: stream ends after 6 bytes" stubs="vmm-sys-util raw_recvmsg/raw_sendmsg (ghost stream socket with delivery cuts / partial accepts), close, OwnedFd::drop"
 c08!(c08_u_hdr_truncated_6, 6, hdr_truncated(6));
-// @harness props=C08,C06 tier=quick reach=off bound="recv_body<u64>: 20 bytes (header+body) cut at 12 and 20; all body values, 0..=2 descriptors" stubs="vmm-sys-util raw_recvmsg/raw_sendmsg (ghost stream socket with delivery cuts / partial accepts), close, OwnedFd::drop"
+// @harness props=C08,C06,C01 tier=quick reach=off bound="recv_body<u64>: 20 bytes (header+body) cut at 12 and 20; all body values, 0..=2 descriptors" stubs="vmm-sys-util raw_recvmsg/raw_sendmsg (ghost stream socket with delivery cuts / partial accepts), close, OwnedFd::drop"
 c08!(c08_u_body_split_12_20, 6, body_split(12, 20));
-// @harness props=C08,C06 tier=quick reach=off bound="recv_body<u64>: 20 bytes (header+body) cut at 5 and 13; all body values, 0..=2 descriptors" stubs="vmm-sys-util raw_recvmsg/raw_sendmsg (ghost stream socket with delivery cuts / partial accepts), close, OwnedFd::drop"
+// @harness props=C08,C06,C01 tier=quick reach=off bound="recv_body<u64>: 20 bytes (header+body) cut at 5 and 13; all body values, 0..=2 descriptors" stubs="vmm-sys-util raw_recvmsg/raw_sendmsg (ghost stream socket with delivery cuts / partial accepts), close, OwnedFd::drop"
 c08!(c08_u_body_split_5_13, 6, body_split(5, 13));
-// @harness props=C08,C06 tier=thorough reach=off bound="recv_body<u64>: 20 bytes (header+body) cut at 19 and 20; all body values, 0..=2 descriptors" stubs="vmm-sys-util raw_recvmsg/raw_sendmsg (ghost stream socket with delivery cuts / partial accepts), close, OwnedFd::drop"
+// @harness props=C08,C06,C01 tier=thorough reach=off bound="recv_body<u64>: 20 bytes (header+body) cut at 19 and 20; all body values, 0..=2 descriptors" stubs="vmm-sys-util raw_recvmsg/raw_sendmsg (ghost stream socket with delivery cuts / partial accepts), close, OwnedFd::drop"
 c08!(c08_u_body_split_19_20, 6, body_split(19, 20));
-// @harness props=C08,C06 tier=quick reach=off bound="recv_body<u64>: 20 bytes (header+body) cut at 12 and 16; all body values, 0..=2 descriptors" stubs="vmm-sys-util raw_recvmsg/raw_sendmsg (ghost stream socket with delivery cuts / partial accepts), close, OwnedFd::drop"
+// @harness props=C08,C06,C01 tier=quick reach=off bound="recv_body<u64>: 20 bytes (header+body) cut at 12 and 16; all body values, 0..=2 descriptors" stubs="vmm-sys-util raw_recvmsg/raw_sendmsg (ghost stream socket with delivery cuts / partial accepts), close, OwnedFd::drop"
 c08!(c08_u_body_split_12_16, 6, body_split(12, 16));
-// @harness props=C08,C06 tier=thorough reach=off bound="recv_body<u64>: 20 bytes (header+body) cut at 1 and 2; all body values, 0..=2 descriptors" stubs="vmm-sys-util raw_recvmsg/raw_sendmsg (ghost stream socket with delivery cuts / partial accepts), close, OwnedFd::drop"
+// @harness props=C08,C06,C01 tier=thorough reach=off bound="recv_body<u64>: 20 bytes (header+body) cut at 1 and 2; all body values, 0..=2 descriptors" stubs="vmm-sys-util raw_recvmsg/raw_sendmsg (ghost stream socket with delivery cuts / partial accepts), close, OwnedFd::drop"
 c08!(c08_u_body_split_1_2, 6, body_split(1, 2));
 // @harness props=C08,C06 tier=quick reach=off bound="recv_body<u64>: stream ends after 0 bytes" stubs="vmm-sys-util raw_recvmsg/raw_sendmsg (ghost stream socket with delivery cuts / partial accepts), close, OwnedFd::drop"
 c08!(c08_u_body_truncated_0, 6, body_truncated(0));
@@ -306,13 +331,13 @@ c08!(c08_u_send_retry_eintr_2, 4, send_retry(libc::EINTR, 2));
 c08!(c08_u_send_retry_enobufs_1, 4, send_retry(libc::ENOBUFS, 1));
 // @harness props=C08 tier=thorough reach=off bound="send_message(header+u64): send call 2 fails once with ENOBUFS, 13 bytes accepted per call" stubs="vmm-sys-util raw_recvmsg/raw_sendmsg (ghost stream socket with delivery cuts / partial accepts), close, OwnedFd::drop"
 c08!(c08_u_send_retry_enobufs_2, 4, send_retry(libc::ENOBUFS, 2));
-// @harness props=C08 tier=quick reach=off bound="recv_data(8): request body delivered in two segments cut at byte 1; all body values" stubs="vmm-sys-util raw_recvmsg/raw_sendmsg (ghost stream socket with delivery cuts / partial accepts), close, OwnedFd::drop"
+// @harness props=C08,C01 tier=quick reach=off bound="recv_data(8): request body delivered in two segments cut at byte 1; all body values" stubs="vmm-sys-util raw_recvmsg/raw_sendmsg (ghost stream socket with delivery cuts / partial accepts), close, OwnedFd::drop"
 c08!(c08_u_data_split_1, 5, data_split(1));
-// @harness props=C08 tier=quick reach=off bound="recv_data(8): request body delivered in two segments cut at byte 4; all body values" stubs="vmm-sys-util raw_recvmsg/raw_sendmsg (ghost stream socket with delivery cuts / partial accepts), close, OwnedFd::drop"
+// @harness props=C08,C01 tier=quick reach=off bound="recv_data(8): request body delivered in two segments cut at byte 4; all body values" stubs="vmm-sys-util raw_recvmsg/raw_sendmsg (ghost stream socket with delivery cuts / partial accepts), close, OwnedFd::drop"
 c08!(c08_u_data_split_4, 5, data_split(4));
-// @harness props=C08 tier=quick reach=off bound="recv_data(8): request body delivered in two segments cut at byte 7; all body values" stubs="vmm-sys-util raw_recvmsg/raw_sendmsg (ghost stream socket with delivery cuts / partial accepts), close, OwnedFd::drop"
+// @harness props=C08,C01 tier=quick reach=off bound="recv_data(8): request body delivered in two segments cut at byte 7; all body values" stubs="vmm-sys-util raw_recvmsg/raw_sendmsg (ghost stream socket with delivery cuts / partial accepts), close, OwnedFd::drop"
 c08!(c08_u_data_split_7, 5, data_split(7));
-// @harness props=C08 tier=thorough reach=off bound="recv_data(8): request body delivered in two segments cut at byte 3; all body values" stubs="vmm-sys-util raw_recvmsg/raw_sendmsg (ghost stream socket with delivery cuts / partial accepts), close, OwnedFd::drop"
+// @harness props=C08,C01 tier=thorough reach=off bound="recv_data(8): request body delivered in two segments cut at byte 3; all body values" stubs="vmm-sys-util raw_recvmsg/raw_sendmsg (ghost stream socket with delivery cuts / partial accepts), close, OwnedFd::drop"
 c08!(c08_u_data_split_3, 5, data_split(3));
 // @harness props=C08 tier=quick reach=off bound="recv_data(8): stream ends after 0 body bytes" stubs="vmm-sys-util raw_recvmsg/raw_sendmsg (ghost stream socket with delivery cuts / partial accepts), close, OwnedFd::drop"
 c08!(c08_u_data_truncated_0, 5, data_truncated(0));
@@ -320,3 +345,9 @@ c08!(c08_u_data_truncated_0, 5, data_truncated(0));
 c08!(c08_u_data_truncated_5, 5, data_truncated(5));
 // @harness props=C08 tier=thorough reach=off bound="recv_data(8): stream ends after 7 body bytes" stubs="vmm-sys-util raw_recvmsg/raw_sendmsg (ghost stream socket with delivery cuts / partial accepts), close, OwnedFd::drop"
 c08!(c08_u_data_truncated_7, 5, data_truncated(7));
+// @harness props=C09 tier=quick reach=off timeout=600 bound="recv_header: header with 33 descriptors attached (one more than the per-message limit)" stubs="vmm-sys-util raw_recvmsg (ghost: descriptors counted; MSG_CTRUNC -> ENOBUFS as vmm-sys-util reports it), close, OwnedFd::drop"
+c08!(c09_u_hdr_33_fds, 40, hdr_many_fds(33));
+// @harness props=C09 tier=quick reach=off timeout=600 bound="recv_header: header with 32 descriptors attached (the per-message limit)" stubs="vmm-sys-util raw_recvmsg (ghost: descriptors counted), close, OwnedFd::drop"
+c08!(c09_u_hdr_32_fds, 40, hdr_many_fds(32));
+// @harness props=C09 tier=thorough reach=off timeout=600 bound="recv_header: header with 64 descriptors attached" stubs="vmm-sys-util raw_recvmsg (ghost: descriptors counted), close, OwnedFd::drop"
+c08!(c09_u_hdr_64_fds, 70, hdr_many_fds(64));
